@@ -1877,7 +1877,20 @@ static bool extract_attribute_specifier_sequence(TokenContext &ctx, Chunk &pc, s
 
    while (length--)
    {
-      pc.Str().append(ctx.get());
+      size_t ch = ctx.get();
+
+      // the sequence may span several lines: none of them ends in a blank
+      if (  ch == '\n'
+         || ch == '\r')
+      {
+         while (  pc.Len() > 0
+               && (  pc.GetStr().back() == ' '
+                  || pc.GetStr().back() == '\t'))
+         {
+            pc.Str().pop_back();
+         }
+      }
+      pc.Str().append(ch);
    }
    pc.SetType(CT_ATTRIBUTE);
    return(true);
